@@ -46,7 +46,7 @@ IMPURE_FUNCS = {"next", "print", "setattr", "exec", "eval", "input", "open", "de
 CONSUMERS = {"tuple", "list", "set", "frozenset", "sum", "any", "all", "sorted", "min", "max", "dict", "OrderedDict", "reduce"}
 NUMERIC_FUNCS = {"exp", "log", "log10", "log2", "sqrt", "float", "int", "sum", "len", "abs", "min", "max", "sin", "cos", "tanh", "atanh", "arctanh", "floor", "round", "Fraction"}
 MAX_EFFECTS = 6000
-MAX_WORK = 40000     # statements walked (continuations are walked once per path)
+MAX_WORK = 200000    # statements walked (continuations are walked once per path)
 
 
 class Unsupported(Exception):
@@ -82,6 +82,8 @@ class Normaliser:
         self.in_try = 0      # > 0 while the body of a try with handlers is being walked: evaluating an expression there may be the point
         self.decided: Dict[str, bool] = {}   # path condition: key of a test's positive core (tkey) -> its value on the current path
         self._tkeys: Dict[str, tuple] = {}
+        self._names_cache: Dict[int, tuple] = {}
+        self.live_stack: List[Optional[set]] = [set()]   # names read after the block being walked returns to its caller (None: unknown, all)
         self._inval: List[str] = []          # keys dropped from `decided` because something they mention changed
         self.vnum: Dict[str, tuple] = {}     # variables that stay variables are numbered in the order they are first bound
         fn = inline_procedures(fn, self.helpers, self.methods) if depth == 0 else fn
@@ -463,13 +465,12 @@ class Normaliser:
                 parts.append(self.ex(c, benv))
             return True, ("cmpchain", tuple(parts))
         if isinstance(n, ast.BoolOp):
-            parts = [self.test(v, benv) for v in n.values]
-            # De Morgan: of a connective and its dual the one with fewer negated operands is kept (`and` on a tie)
-            n_neg = sum(1 for p_, _ in parts if not p_)
-            if 2 * n_neg > len(parts) or (2 * n_neg == len(parts) and isinstance(n.op, ast.Or)):
-                dual = "Or" if isinstance(n.op, ast.And) else "And"
-                return False, ("bool", dual, tuple(("not", t_) if p_ else t_ for p_, t_ in parts))
-            return True, ("bool", type(n.op).__name__, tuple(t_ if p_ else ("not", t_) for p_, t_ in parts))
+            return _bool_form(type(n.op).__name__, [self.test(v, benv) for v in n.values])
+        if isinstance(n, (ast.ListComp, ast.List, ast.Dict, ast.DictComp, ast.Set, ast.SetComp, ast.Tuple)) or \
+                (isinstance(n, ast.Call) and isinstance(n.func, ast.Name) and n.func.id in ("list", "dict", "tuple", "set", "sorted", "frozenset") and n.func.id not in benv):
+            # the truth value of a list / dict / tuple / set is "not empty"
+            pos, t = self.test(ast.Compare(left=ast.Call(func=ast.Name(id="len", ctx=ast.Load()), args=[n], keywords=[]), ops=[ast.Eq()], comparators=[ast.Constant(value=0)]), benv)
+            return (not pos), t
         f = self.ex(n, benv)
         if isinstance(f, tuple) and f and f[0] == "not":
             return False, f[1]
@@ -653,6 +654,39 @@ class Normaliser:
             for k in self._inval[mark:]:
                 self.decided.pop(k, None)
 
+    def names_read(self, stmt_lists) -> set:
+        """names that occur (in any role but a plain store) in the given statement lists; cached per list"""
+        out = set()
+        for lst in stmt_lists:
+            key = id(lst)
+            hit = self._names_cache.get(key)
+            if hit is None or hit[0] is not lst:
+                names = set()
+                for st in lst:
+                    for x in ast.walk(st):
+                        if isinstance(x, ast.Name) and not isinstance(x.ctx, ast.Store):
+                            names.add(x.id)
+                        elif isinstance(x, ast.AugAssign) and isinstance(x.target, ast.Name):
+                            names.add(x.target.id)   # read and written
+                hit = (lst, names)
+                self._names_cache[key] = hit
+            out |= hit[1]
+        return out
+
+    def live_after(self, rest, cont):
+        """names that may be read once the statements `rest` and the continuation have run, or by them (None: any)"""
+        top = self.live_stack[-1]
+        if top is None:
+            return None
+        return self.names_read((rest,) + tuple(cont)) | top
+
+    def with_live(self, live, thunk):
+        self.live_stack.append(live)
+        try:
+            return thunk()
+        finally:
+            self.live_stack.pop()
+
     def name_form(self, closed_name):
         """form of a name as it occurs in closed expressions"""
         return self.vform(closed_name[len(OP):]) if closed_name.startswith(OP) else ("n", closed_name)
@@ -669,7 +703,7 @@ class Normaliser:
 
     def touched_by(self, stmts, env) -> set:
         """closed names of everything the statements may rebind or mutate: stored local names (as variables), roots of stores / mutator calls"""
-        out = set()
+        out, rebound = set(), set()
 
         def closed_root(r):
             if r is None:
@@ -684,7 +718,7 @@ class Normaliser:
         for st in stmts:
             for n in ast.walk(st):
                 if isinstance(n, ast.Name) and isinstance(n.ctx, (ast.Store, ast.Del)):
-                    out.add(OP + n.id)
+                    rebound.add(OP + n.id)
                 elif isinstance(n, (ast.Subscript, ast.Attribute)) and isinstance(n.ctx, (ast.Store, ast.Del)):
                     closed_root(self._root(n))
                 elif isinstance(n, ast.Expr) and isinstance(n.value, ast.Call):
@@ -692,14 +726,15 @@ class Normaliser:
                 elif isinstance(n, ast.Call) and isinstance(n.func, ast.Attribute) and n.func.attr in MUTATORS:
                     closed_root(self._root(n.func.value))
                 elif isinstance(n, ast.ExceptHandler) and n.name:
-                    out.add(OP + n.name)
-        return out
+                    rebound.add(OP + n.name)
+        return rebound, out
 
     def before_nested(self, stmts, env, eff):
         """a loop / try / with is about to run `stmts` an unknown number of times: whatever they may change is settled first"""
-        names = self.touched_by(stmts, env)
-        self.materialise(env, names, eff)
-        self.invalidate(names)
+        rebound, mutated = self.touched_by(stmts, env)
+        self.materialise(env, rebound, eff, rebinding=True)
+        self.materialise(env, mutated, eff)
+        self.invalidate(rebound | mutated)
 
     def to_variable(self, nm, env, eff):
         """the local `nm` becomes a variable from here on; the value it has so far (an expression, or the parameter of that name) is bound first"""
@@ -743,6 +778,14 @@ class Normaliser:
                 return [("return", t)]
             if (ea[0][1], eb[0][1]) == (Fa, T):
                 return [("return", ("not", t))]
+        # an if nested alone in an arm of an if without other arm is one if on the conjunction:  if A: (if B: X)  ==  if A and B: X
+        #   more generally, with R the other arm:  if A: (if B: X else: R) else: R  ==  if A and B: X else: R
+        for outer_pos, arm, other in ((True, ea, eb), (False, eb, ea)):
+            if len(arm) == 1 and arm[0][0] == "if" and arm[0][2] != arm[0][3] and tuple(other) in (arm[0][2], arm[0][3]):
+                inner_pos = arm[0][3] == tuple(other)
+                body = arm[0][2] if inner_pos else arm[0][3]
+                pos, form = _bool_form("And", [(outer_pos, t), (inner_pos, arm[0][1])])
+                return self.mk_if(form, body, other) if pos else self.mk_if(form, other, body)
         # canonical order of independent tests: `if a: (if b: X else: Y) else: (if b: Z else: W)` with b before a is rotated
         if len(ea) == 1 and len(eb) == 1 and ea[0][0] == "if" and eb[0][0] == "if" and ea[0][1] == eb[0][1] and repr(ea[0][1]) < repr(t):
             t2 = ea[0][1]
@@ -774,11 +817,15 @@ class Normaliser:
     def mentions(expr, names) -> bool:
         return any(isinstance(x, ast.Name) and x.id in names for x in ast.walk(expr))
 
-    def materialise(self, env, names, eff):
-        """bindings whose value mentions something that is about to change become variables of their own"""
+    def materialise(self, env, names, eff, rebinding=False):
+        """bindings whose value mentions something that is about to change become variables of their own.  rebinding=False: the named objects are
+        about to be mutated -- a name that simply *is* one of them stays an alias (a later mutation through it is then seen as a mutation of the
+        same object); rebinding=True: the named variables are about to be rebound -- an alias must keep the present value"""
         for nm in list(env):
             e = env[nm]
-            if isinstance(e, ast.Name) and e.id in names:
+            if isinstance(e, ast.Name) and e.id == OP + nm:
+                continue   # the variable's own entry
+            if not rebinding and isinstance(e, ast.Name) and e.id in names:
                 continue
             if self.mentions(e, names):
                 eff.extend(self.emit("bind", [e], lambda fs, nm=nm: ("bind", self.vform(nm), fs[0])))
@@ -822,7 +869,7 @@ class Normaliser:
 
     def bind_var(self, nm, value, env, eff):
         """the local `nm` stays a variable: emit its (re)binding"""
-        self.materialise(env, {OP + nm}, eff)
+        self.materialise(env, {OP + nm}, eff, rebinding=True)
         eff.extend(self.emit("bind", [value], lambda fs: ("bind", self.vform(nm), fs[0])))
         self.invalidate({OP + nm})
         env[nm] = ast.Name(id=OP + nm, ctx=ast.Load())
@@ -1054,7 +1101,9 @@ class Normaliser:
                     return eff, env
                 continue
             if isinstance(s, (ast.For, ast.While)):
-                eff.extend(self.do_loop(s, env))
+                la = self.live_after(rest, cont)
+                inner = None if la is None else la | self.names_read((s.body, s.orelse)) | {x.id for x in ast.walk(s.test if isinstance(s, ast.While) else s.iter) if isinstance(x, ast.Name)}
+                eff.extend(self.with_live(inner, lambda: self.do_loop(s, env)))
                 continue
             if isinstance(s, ast.Try) and s.orelse and s.handlers and all(always_leaves(h.body) for h in s.handlers) and not s.finalbody:
                 s2 = ast.Try(body=s.body, handlers=s.handlers, orelse=[], finalbody=[])
@@ -1062,6 +1111,8 @@ class Normaliser:
                 i -= 1
                 continue
             if isinstance(s, ast.Try):
+                la = self.live_after(rest, cont)
+                self.live_stack.append(None if la is None else la | self.names_read((s.body, s.orelse, s.finalbody) + tuple(h.body for h in s.handlers)))
                 # what was computed before the try stays before it (an exception raised there is not the handlers' business)
                 for nm in list(env):
                     e_ = env[nm]
@@ -1097,6 +1148,7 @@ class Normaliser:
                 ef, _ = self.block(s.finalbody, dict(env), ()) if s.finalbody else ([], env)
                 eff.append(("try", tuple(eb), tuple(hs), tuple(eo), tuple(ef)))
                 self.sunk = prev_sunk
+                self.live_stack.pop()
                 continue
             if isinstance(s, ast.With):
                 items = []
@@ -1114,7 +1166,8 @@ class Normaliser:
                 for nm in self.stores_in(s.body):
                     self.to_variable(nm, env, eff)
                 prev_sunk = self.sunk
-                eb, _ = self.block(s.body, dict(env), ())
+                la = self.live_after(rest, cont)
+                eb, _ = self.with_live(None if la is None else la | self.names_read((s.body,)), lambda: self.block(s.body, dict(env), ()))
                 self.sunk = prev_sunk
                 eff.append(("with", tuple(items), tuple(eb)))
                 continue
@@ -1183,15 +1236,22 @@ class Normaliser:
             eb, _ = self.under(tkey, False, lambda: self.block(b_st, dict(env), (rest,) + tuple(cont)))
             return self.mk_if(t, ea, eb), env, True
         self.sunk = False
-        ea, enva = self.under(tkey, True, lambda: self.block(a_st, dict(env), ()))
+        live = self.live_after(rest, cont)
+        ea, enva = self.with_live(live, lambda: self.under(tkey, True, lambda: self.block(a_st, dict(env), ())))
         sunk_a, self.sunk = self.sunk, False
-        eb, envb = self.under(tkey, False, lambda: self.block(b_st, dict(env), ()))
+        eb, envb = self.with_live(live, lambda: self.under(tkey, False, lambda: self.block(b_st, dict(env), ())))
         sunk_b, self.sunk = self.sunk, False
         if sunk_a or sunk_b:
             # an if nested in an arm continued what follows it inside its own arms: so must this one
             ea, _ = self.under(tkey, True, lambda: self.block(a_st, dict(env), (rest,) + tuple(cont)))
             eb, _ = self.under(tkey, False, lambda: self.block(b_st, dict(env), (rest,) + tuple(cont)))
             return self.mk_if(t, ea, eb), env, True
+        # a name bound differently in the two arms matters only if something afterwards reads it
+        differing = {k for k in set(enva) | set(envb) if not (k in enva and k in envb and (enva[k] is envb[k] or ast.dump(enva[k]) == ast.dump(envb[k])))}
+        if differing and live is not None:
+            for k in differing - live:
+                enva.pop(k, None)
+                envb.pop(k, None)
         same_env = enva.keys() == envb.keys() and all(enva[k] is envb[k] or ast.dump(enva[k]) == ast.dump(envb[k]) for k in enva)
         if ea == eb and same_env:
             if self.in_try and _may_raise(test):
@@ -1355,6 +1415,26 @@ class _Prepass(ast.NodeTransformer):
             out.append(s)
             i += 1
         return out
+
+    # ---- loops: `if c: continue` followed by R at the top level of a loop body is `if not c: R`
+    @staticmethod
+    def _guards(body):
+        for i, st in enumerate(body):
+            if isinstance(st, ast.If) and not st.orelse and len(st.body) == 1 and isinstance(st.body[0], ast.Continue):
+                rest = _Prepass._guards(body[i + 1:])
+                if not rest:
+                    return body
+                new = ast.If(test=ast.UnaryOp(op=ast.Not(), operand=st.test), body=rest, orelse=[])
+                return body[:i] + [ast.fix_missing_locations(ast.copy_location(new, st))]
+        return body
+
+    def visit_For(self, node):
+        node.body = self._guards(list(node.body)) or [ast.Pass()]
+        return self.generic_visit(node)
+
+    def visit_While(self, node):
+        node.body = self._guards(list(node.body)) or [ast.Pass()]
+        return self.generic_visit(node)
 
     # ---- expressions
     def visit_Compare(self, node):
@@ -2105,15 +2185,57 @@ def normal_form(fn, consts=None, helpers=None, methods=None):
     return (sig, _renumber(_prune_evals(_drop_dead_binds(tuple(strip_tail(eff, "return")) if not is_gen else tuple(eff)))))
 
 
+def _bool_form(op, parts):
+    """(polarity, form) of `p1 op p2 op ...` for parts given as (polarity, positive form): nested connectives of the same kind are flattened; De Morgan: of a
+    connective and its dual the one with fewer negated operands is kept (`and` on a tie)"""
+    dual_of = {"And": "Or", "Or": "And"}
+    flat = []
+    for pos, t in parts:
+        if isinstance(t, tuple) and len(t) == 3 and t[0] == "bool" and ((pos and t[1] == op) or (not pos and t[1] == dual_of[op])):
+            # (a op b) op c ;  not (a dual b) op c  ==  (not a op not b) op c
+            for sub in t[2]:
+                neg = isinstance(sub, tuple) and len(sub) == 2 and sub[0] == "not"
+                core = sub[1] if neg else sub
+                flat.append(((not neg) if pos else neg, core))
+        else:
+            flat.append((pos, t))
+    n_neg = sum(1 for p_, _ in flat if not p_)
+    if 2 * n_neg > len(flat) or (2 * n_neg == len(flat) and op == "Or"):
+        return False, ("bool", dual_of[op], tuple(("not", t_) if p_ else t_ for p_, t_ in flat))
+    return True, ("bool", op, tuple(t_ if p_ else ("not", t_) for p_, t_ in flat))
+
+
 def _may_raise(e) -> bool:
     """anything but names, constants and displays of them"""
     return any(not isinstance(x, (ast.Name, ast.Constant, ast.Tuple, ast.List, ast.Load, ast.Store, ast.expr_context)) for x in ast.walk(e))
 
 
+def _alg_atoms(e, out):
+    """the non-arithmetic operands of an arithmetic form (sum / prod / pow), recursively"""
+    if isinstance(e, tuple) and e and e[0] == "sum":
+        for term in e[1]:
+            for atom, _p in term[1]:
+                _alg_atoms(atom, out)
+    elif isinstance(e, tuple) and e and e[0] == "prod":
+        for atom, _p in e[2]:
+            _alg_atoms(atom, out)
+    elif isinstance(e, tuple) and e and e[0] == "pow":
+        _alg_atoms(e[1], out)
+        _alg_atoms(e[2], out)
+    else:
+        out.append(e)
+    return out
+
+
 def _evaluates(form, e) -> bool:
-    """does evaluating `form` always evaluate the sub-form `e`? (conditional arms, later operands of and/or, comprehension bodies do not count)"""
+    """does evaluating `form` always evaluate the sub-form `e`? (conditional arms, later operands of and/or, comprehension bodies do not count; an
+    arithmetic combination counts as evaluated when all its operands are: arithmetic is re-associated freely by this normal form anyway)"""
     if form == e:
         return True
+    if isinstance(e, tuple) and e and e[0] in ("sum", "prod", "pow"):
+        atoms = _alg_atoms(e, [])
+        if all(not (isinstance(a_, tuple) and a_ and a_[0] in ("sum", "prod", "pow")) for a_ in atoms):
+            return all(_evaluates(form, a_) for a_ in atoms if isinstance(a_, tuple) and a_ and a_[0] not in ("n", "v", "c", "k"))
     if not isinstance(form, tuple) or not form:
         return False
     h = form[0]
